@@ -1033,13 +1033,15 @@ impl Transformer {
             self.write_auto_styles(root, &mut events, writer)?;
         }
 
+        events.write_to(writer)?;
+
         if empty_root {
             // the root was an empty element, written as a start tag so that the
-            // generated comments / styles above are inside it.
+            // generated comments / styles above - and anything generated for the
+            // root itself, such as its text - are inside it.
             OutputList::from(vec![OutputEvent::End("svg".to_owned())]).write_to(writer)?;
         }
-
-        events.write_to(writer)
+        Ok(())
     }
 }
 
